@@ -22,8 +22,10 @@ type Rng struct{ s uint64 }
 func New(seeds ...uint64) *Rng {
 	r := &Rng{s: 0x9e3779b97f4a7c15}
 	for _, s := range seeds {
+		// Mix after every seed: plain xor-then-add folding made (a, b) and
+		// (a^x, b^y) collide for many x, y.
 		r.s ^= s
-		r.Uint64()
+		r.s = r.Uint64()
 	}
 	return r
 }
